@@ -152,6 +152,9 @@ func ruleR10_1(w *World, r *Report) {
 			for i := 0; i < st.NumFields(); i++ {
 				f := st.Field(i)
 				key := sn + "." + f.Name()
+				if old, renamed := fieldOldName[key]; renamed {
+					key = sn + "." + old // reads and writes are recorded under the field's name in the reviewed tree
+				}
 				if nn := namedOf(f.Type()); nn != nil && nn.Obj().Name() == "BaseDatatype" {
 					continue // link to the owning datatype, handled below
 				}
